@@ -13,7 +13,7 @@ import pandas
 import scipy.sparse as spsparse
 from interface_meta import override
 
-from formulaic.utils.cast import as_columns
+from formulaic.utils.cast import as_columns, narwhals_series_to_pandas
 from formulaic.utils.null_handling import drop_rows as drop_nulls
 
 from .base import FormulaMaterializer
@@ -102,7 +102,7 @@ class NarwhalsMaterializer(FormulaMaterializer):
         if drop_rows:
             values = drop_nulls(values, indices=drop_rows)
         if nw.dependencies.is_narwhals_series(values):
-            values = values.to_pandas()
+            values = narwhals_series_to_pandas(values)
 
         return as_columns(
             encode_contrasts(
